@@ -62,15 +62,26 @@ func preflight() {
 func TestMain(m *testing.M) {
 	run = vk.Start("C10", "exploration")
 	run.Rule("alloc/dealloc histories against a fresh nat.Manager+nat.Logger per history: every sequence of the stated depth over <=6 subscribers (up to subscriber renaming) for each (port range, block size, #public addresses) configuration, seeded random walks of 100-1000 ops over up to 140 subscribers with lookups/stats/flushes/virtual-time jumps, and concurrent histories (allocate-only, mixed with one driver per subscriber, several callers racing on the same private address) under -race; non-trivial = distinct sequential history in which a block was released while a higher block on the same public address was live and a later allocation succeeded on that address (release-from-the-middle then allocate), or a concurrent history with >=2 overlapping calls; map-fault histories: the manager on real kernel hash maps (VerifSetMaps) with a write fault (table filled with foreign keys until the kernel refuses an insert / read-only handle of the same table) switched on and off between operations at subscriber_nat (Put of AllocateNAT, Delete of DeallocateNAT), hairpin_ips (AddPublicIP) and alg_ports (ConfigureALG): every history of the stated depth over {alloc, dealloc, fault-on(full), fault-on(read-only), fault-off} for <=3 subscribers, 1-2 public addresses and pools of 1/2/3/64 blocks, plus seeded random histories over all fault kinds; non-trivial there = a refused subscriber_nat Put followed by a successful new allocation on a public address that had a free block at the refusal")
+	run.Rule("log-file lifecycles (disk_test.go): nat.Logger writing to a file with MaxFileSize of 2-20 records (or none), MaxAge of 2 min - 1 h (or none), optional compression, bulk and per-allocation records, flush after every step / by the logger's 5 s tick / only at flush, restart and shutdown; seeded histories of allocations and releases (gaps of 1 s - 4 min, one history in six with sub-second bursts), quiet periods shorter and longer than MaxAge, the production retention tick (rotationLoop, hourly, virtual time) and retention passes called directly, restarts of the logger over the same directory; file modification times follow the virtual clock (os.Chtimes after every step). Non-trivial = a distinct history in which an allocation or release happened after a retention pass that saw the active file older than MaxAge")
+	run.Rule("public address configurations (pubcfg_test.go): the pool is built by AddPublicIP one by one (4- and 16-byte net.IP), AddPublicIPRange over 1-8 addresses (also across a /24 boundary), mixtures, steps applied while blocks are held, the same address handed in again; 2-10 blocks per address and more subscribers than two addresses carry; all sequential clauses plus pool-reports-configured-addresses (GetPoolStats) and spread-over-configured-addresses. Non-trivial = a distinct history in which blocks were held on two addresses of one AddPublicIPRange call at once")
+	run.Assume("log files: the reader has every file whose name starts with the configured log path (plain or .gz), identical records count once, records are ordered by their timestamps; a record is demanded on disk only when the logger has nothing buffered (after Flush+FlushPortBlocks, after the 5 s tick of a started logger, after Stop) and, with MaxAge configured, only while it is younger than MaxAge minus one second; the assignment record of a block that is still held is demanded whatever its age")
 	run.Assume("a subscriber is identified by its private IPv4 address (the key of AllocateNAT/DeallocateNAT); the log reader may use the configured block size but no manager state; blocks are inclusive [PortStart, PortEnd]")
 	run.Assume("map-fault histories: the kernel table is read with the manager's own key encoding (its byte order against nat44.c is C06's subject); a subscriber_nat entry that stays behind a release whose Delete the kernel refused is reported only once it overlaps what another subscriber holds")
-	run.Assume("the nat.Logger is attached with Manager.SetLogger and writes JSON; other formats and file rotation are not judged")
+	run.Assume("the nat.Logger is attached with Manager.SetLogger and writes JSON; other formats are not judged; LoggerConfig has no MaxBackups (retention is by age only)")
 	// floors: far below what the quick tier observes; falling under them means the harness could not judge
 	for k, n := range map[string]int64{
 		"op_alloc_new": 20000, "op_dealloc_held": 10000, "allocations_after_middle_release": 2000,
 		"attribution_probes_in_order": 500000, "attribution_probes_by_time": 1000000, "instants_judged_by_time": 50000,
 		"log_port_block_assign": 10000, "log_allocate": 10000, "log_port_block_release": 4000, "log_deallocate": 4000,
 		"fault_histories": 20000, "fault_position_x_operation_pairs_reached": 8, "fault_histories_refused_put_then_allocation_same_public_ip": 2000, "fault_histories_refused_put_then_allocation_to_other_subscriber_same_public_ip": 1200, "fault_histories_with_refused_delete": 1000, "fault_dataplane_pairs_judged_disjoint": 20000,
+		"disk_histories": 400, "disk_checkpoints_judged": 8000, "disk_young_events_judged": 30000, "disk_events_found_on_disk": 2500, "disk_held_blocks_judged": 15000,
+		"disk_rotated_files_observed": 200, "disk_compressed_files_observed": 25, "disk_logger_restarts": 100, "disk_stops_at_the_instant_of_the_flush_tick": 300, "disk_quiet_periods_longer_than_maxage": 200, "disk_quiet_periods_not_longer_than_maxage": 100,
+		"disk_direct_retention_passes_after_quiet_period_longer_than_maxage": 100, "disk_production_retention_ticks_after_quiet_period_longer_than_maxage": 20,
+		"disk_files_removed_by_direct_retention_pass": 70, "disk_files_removed_by_the_production_retention_tick": 15,
+		"disk_events_after_quiet_period_and_retention_pass": 1000, "disk_events_after_quiet_period_and_retention_pass_found_on_disk": 800,
+		"pubcfg_histories": 500, "pubcfg_add_public_ip_calls": 500, "pubcfg_add_public_ip_range_calls": 300, "pubcfg_ranges_crossing_a_slash24_boundary": 100, "pubcfg_pool_reports_judged": 700,
+		"pubcfg_configured_addresses_found_in_pool_report": 3000, "pubcfg_allocations_on_a_later_configured_address": 5000, "pubcfg_histories_holding_blocks_on_two_addresses_of_a_range": 250,
+		"pubcfg_steps_applied_mid_history": 100, "pubcfg_addresses_added_again": 10, "pubcfg_spread_judgements": 10000,
 		"concurrent_ops": 5000, "overlapping_calls": 500, "same_ip_racing_alloc_pairs": 50, "porcupine_checks": 100,
 	} {
 		if !child {
